@@ -3,6 +3,7 @@ use crate::engine::Check;
 
 pub mod c03;
 pub mod c04;
+pub mod c05;
 pub mod c06;
 pub mod c08;
 pub mod c19;
@@ -11,6 +12,7 @@ pub fn all() -> Vec<Box<dyn Check>> {
 	vec![
 		Box::new(c03::C03),
 		Box::new(c04::C04),
+		Box::new(c05::C05),
 		Box::new(c06::C06),
 		Box::new(c08::C08),
 		Box::new(c19::C19),
